@@ -264,7 +264,7 @@ class Engine:
                         r = self.run_corr(name, trial, record=False)
                     except Exception:
                         r = None
-                    if r is not None:
+                    if r is not None and not (isinstance(r["model"], list) and r["model"][:1] == ["driver-failure"]):
                         best = r
                         improved = True
                         break
@@ -362,13 +362,18 @@ class Engine:
             ctx = Ctx(pid, self.tier, self.seed)
             budget_s = getattr(self.mod, "BUDGET_S", {"quick": 600, "thorough": 3000})[self.tier]
             t_gen = time.time()          # the case budget starts after the builds
-            for case in self.mod.generate(ctx):
-                handle(self.run_case(case))
-                if len(self.corr_fail) + len(self.prop_fail) > 50:
-                    break
-                if time.time() - t_gen > budget_s:
-                    ctx.label("time-budget-reached")
-                    break
+            try:
+                for case in self.mod.generate(ctx):
+                    handle(self.run_case(case))
+                    if len(self.corr_fail) + len(self.prop_fail) > 50:
+                        break
+                    if time.time() - t_gen > budget_s:
+                        ctx.label("time-budget-reached")
+                        break
+            except Exception as e:  # noqa  (the generators call into the implementation to build cases)
+                proof_fail.append("case generation could not drive the implementation: " +
+                                  "".join(traceback.format_exception_only(type(e), e)).strip()[:300] +
+                                  " @ " + traceback.format_tb(e.__traceback__)[-1].strip().replace("\n", " ")[:200])
             self.labels = ctx.labels
             # 3b. extraction self-check (same cases by vm_compute inside Coq)
             try:
